@@ -14,6 +14,7 @@
 #include <cmath>
 #include <string>
 #include <map>
+#include <boost/mpi.hpp>
 
 namespace verif_native {
 struct St {
@@ -123,7 +124,8 @@ extern "C" double __wrap_exp(double x) {
     __v_exp_n()++;
     return __real_exp(x);
 }
-int main() {
+int main(int argc, char** argv) {
+    boost::mpi::environment env(argc, argv);
     h_main();
     std::printf("NATIVE checks=%d failed=%d\n", verif_native::st().checks, verif_native::st().failed);
     return verif_native::st().failed ? 3 : 0;
